@@ -32,7 +32,9 @@ Matrices ==
     Then(Scale(I(2), I(3)), Rotate(Q(3, 5), Q(4, 5))), Then(Rotate(Q(3, 5), Q(4, 5)), Scale(I(2), I(3))),
     <<I(0), I(1), I(1), I(0), I(0), I(0)>>, <<I(1), I(2), I(3), I(4), I(5), I(6)>>,
     \* maps that differ from the identity in a single entry
-    Translate(I(0), I(25)), Translate(I(25), I(0)), Scale(I(1), I(3)), Scale(I(3), I(1)) } \cup
+    Translate(I(0), I(25)), Translate(I(25), I(0)), Scale(I(1), I(3)), Scale(I(3), I(1)),
+    \* shears in the negative direction (both off-diagonal entries <= 0), with a translation
+    <<I(1), I(0), Q(-3, 4), I(1), I(3), I(4)>>, <<Q(3, 2), Q(-2, 5), Q(-7, 10), I(2), I(10), I(-5)>> } \cup
   (IF Full THEN { Scale(I(-2), I(-3)), Scale(Q(1, 1000), Q(1, 1000)), <<I(20), I(1), I(19), I(1), I(0), I(0)>>,
                   Then(Skew(Q(3, 4), RZero), Scale(I(1), I(-1))), Rotate(Q(-4, 5), Q(3, 5)) } ELSE {})
 
